@@ -192,7 +192,10 @@ func (c *c20Ctx) note(format string, a ...interface{}) {
 func (c *c20Ctx) harnessErr(where string, format string, a ...interface{}) {
 	atomic.AddInt64(&c.harness, 1)
 	msg := fmt.Sprintf(format, a...)
-	c.run.Violation("harness-error:"+where, "the harness could not decide a case (not a finding about the library): "+msg, map[string]interface{}{"part": "harness", "where": where, "message": msg})
+	// not a finding about the library: the case is reported as not decided (coverage.harness_errors,
+	// coverage.harness_error_notes, exhaustive:false) and never as a violation
+	c.note("HARNESS could not decide (%s): %s", where, msg)
+	fmt.Printf("NOTE C20: the harness could not decide a case (%s): %s\n", where, firstLine(msg))
 }
 
 func c20Check(args []string) int {
